@@ -1354,7 +1354,44 @@ def w_relocate(failure, tier):
     return dict(found=False, note='relocation: %d indexes (1-3 segments) copied, the copy searched / committed / compacted: the original directory is untouched, the copy is self-contained' % n)
 
 
+def w_completion(failure, tier):
+    """completion suggestions against the corpus: each option is a term of the field that starts with the prefix, its doc_freq
+    is the number of documents containing it, options come by score descending then text, at most `size` of them - and the
+    answer is the same however the documents are spread over segments, as long as fewer terms than the scan cap (64) match"""
+    n = 0
+    for nterms, copies in ((40, 3), (12, 4), (30, 2)):
+        terms = ["pre%02d" % i for i in range(nterms)]
+        docs = []
+        for b in range(copies):
+            for i, t in enumerate(terms):
+                if (i + b) % 5 != 4:      # not every term in every batch
+                    docs.append({"_id": "d%d_%d" % (b, i), "body": t + " filler"})
+        truth = {}
+        for d in docs:
+            t = d["body"].split()[0]
+            truth[t] = truth.get(t, 0) + 1
+        per = (len(docs) + copies - 1) // copies
+        layouts = [[docs], [docs[i:i + per] for i in range(0, len(docs), per)], [docs[i:i + 7] for i in range(0, len(docs), 7)]]
+        for size in (3, 5, 10):
+            req = dict(REQ_BASE, query={"type": "match_all"}, limit=1, suggest={"s": {"type": "completion", "field": "body", "prefix": "pre", "size": size}})
+            want = sorted(truth.items(), key=lambda kv: (-kv[1], kv[0]))[:size]
+            for li, batches in enumerate(layouts):
+                out, err = drive_search({"schema": None, "batches": batches, "requests": [req]})
+                if out is None or 'ok' not in out[0]:
+                    return dict(found=False, note='search driver failed: %s' % (err or str(out)[:200]))
+                opts = out[0]['ok'].get('suggest', {}).get('s', {}).get('options', [])
+                got = [(o['text'], o['doc_freq']) for o in opts]
+                n += 1
+                if got != want:
+                    return dict(found=True, cmd='%s search <<< hex(json)' % BIN,
+                                input='%d documents over %d terms pre00.. in %d segment(s); completion on body, prefix "pre", size %d' % (len(docs), nterms, len(batches), size),
+                                observed='options %s' % got, expected='%s (term, number of documents containing it), by count descending then text' % want)
+    return dict(found=False, note='completion: %d (corpus, size, segment layout) combinations agree with the document counts of the corpus' % n)
+
+
 GENERATORS = {
+    ('U39', 'prefix_candidates'): w_completion,
+    ('U39', 'suggest_cut'): w_completion,
     ('U38', 'load'): w_relocate,
     ('U38', 'segment_paths'): w_relocate,
     ('U38', 'cleanup_segments'): w_relocate,
